@@ -27,20 +27,7 @@ def run(ctx):
     from qv.lib import only_reached_through
     okm, direct = only_reached_through(prog, 'qmail-send.c', 'markdone', {'del_dochan'})
     r1.check(okm, 'markdone-reached-only-through-del_dochan', 'qmail-send.c', 'markdone() is called from %s, not all of which are reached only through del_dochan' % direct)
-    # read()==0 / -1: no state change
-    f = prog.fn('del_dochan', 'qmail-send.c')
-    rd = f.calls('read')
-    if not rd:
-        raise AnalysisBroken('del_dochan: read() not found')
-    loops = [b for b in f.blocks.values() if b.term and b.term.get('k') in ('for', 'while')]
-    okr = False
-    for b in loops:
-        g = f.guards(b.id) or []
-        has0 = any(c.strip().k == 'bin' and c.strip().op == '==' and c.strip().args[1].const == 0 and t is False for c, t in g)
-        hasm = any(c.strip().k == 'bin' and c.strip().op == '==' and c.strip().args[1].const == -1 and t is False for c, t in g)
-        if has0 and hasm:
-            okr = True
-    r1.check(okr, 'EOF-or-error-on-the-report-pipe-changes-nothing', rd[0].where, 'report processing is reachable with r == 0 or r == -1')
+    # read()==0 / -1: no state change — instance del:EOF-or-error-on-the-report-pipe-changes-nothing of the del_dochan exploration
     r1.expect_min(10)
     rep.exhaustive_rules.append('C03.1-DONE-only-on-K-or-D')
 
